@@ -49,9 +49,23 @@ def _arms(handler):
         if len(node.orelse) == 1 and isinstance(node.orelse[0], ast.If):
             node = node.orelse[0]
             continue
-        out.append((None, node.orelse))
+        tail = node.orelse
+        if not tail and node is chain[0] and _jumps(node.body):
+            # normal form N5 (else-after-jump removed): the statements after the `if` are the else arm
+            tail = handler.body[handler.body.index(node) + 1:]
+            t = node.test
+            if isinstance(t, ast.Compare) and len(t.ops) == 1 and isinstance(t.ops[0], (ast.NotIn, ast.NotEq)):
+                # `if errno not in TABLE: raise` + rest  ==  `if errno in TABLE: rest else: raise`
+                pos = ast.Compare(left=t.left, ops=[ast.In() if isinstance(t.ops[0], ast.NotIn) else ast.Eq()], comparators=t.comparators)
+                ast.copy_location(pos, t)
+                return [(pos, tail), (None, node.body)]
+        out.append((None, tail))
         break
     return out
+
+
+def _jumps(stmts):
+    return bool(stmts) and isinstance(stmts[-1], (ast.Return, ast.Raise, ast.Continue, ast.Break))
 
 
 def _names(module, test):
